@@ -65,7 +65,8 @@ def cases(tier, seed):
                    outcome=rnd.choice(['success', 'warning', 'failure', 'raise']),
                    pcid=rnd.choice([1, 3, 5, 7, 9, 11, 201]),
                    variant=rnd.choice(['success', 'failure', 'mixed']),
-                   dest_mute=rnd.random() < 0.25, seed=seed * 100003 + j)
+                   dest_mute=rnd.random() < 0.25, rel_behind=rnd.random() < 0.2,
+                   seed=seed * 100003 + j)
 
 
 STATUS = {'success': 0x0000, 'warning': 0xB000, 'failure': 0xA700}
@@ -448,12 +449,21 @@ def _scp_case(case):
                                          0x1000: COMMIT_INST, 0x1002: 1}, enc_ds(d))
                 want = 1
             out['want'] = want
+            rel_behind = bool(case.get('rel_behind')) and outcome != 'raise'
+            if rel_behind:
+                # the requester asks for release right behind its request, without waiting:
+                # the provider may (and must) still answer - P-DATA is legal while the release
+                # is pending on its side
+                peer.send(rc.enc_release_rq())
             for _ in range(want):
                 m = peer.read_message(timeout=100.0)
                 if not isinstance(m, dict) or 'fields' not in m:
                     out['instead'] = m
                     break
                 out['rsps'].append(m)
+            if rel_behind:
+                peer.read_pdu(timeout=30.0)          # the A-RELEASE-RP (or whatever ends it)
+                return
             if kind in ('echo', 'find') and 'instead' not in out and outcome != 'raise':
                 # the same SOP class is negotiated on a second context (other id): a further
                 # request there must be answered THERE
